@@ -333,6 +333,29 @@ func runCheck(id, tier, repo, verif string, fn ruleFn) (code int) {
 				}
 				best.c.Note("decided on the inlined normal forms (combined): " + strings.Join(best.log, "; "))
 				c = best.c
+				acquitted = true
+			}
+		}
+		if !acquitted && len(evaluated) > 0 {
+			// Not acquitted: the verdict and the diagnostics are the plain run's. When the plain run only lost its
+			// anchors (a helper was split off), the reports of the normal form with the fewest violations name the
+			// construct; they are added to the notes and printed, without changing any obligation.
+			best := evaluated[0]
+			for _, ev := range evaluated[1:] {
+				if ev.c.unlisted() < best.c.unlisted() {
+					best = ev
+				}
+			}
+			unl := map[string]bool{}
+			for _, k := range best.c.unlistedKeys() {
+				unl[k] = true
+			}
+			for _, o := range best.c.Obls {
+				if o.Status == "violated" && unl[o.Key] {
+					line := fmt.Sprintf("on the inlined normal form %s the rule reports: %s at %s: %s", best.what, o.Key, o.Where, o.Why)
+					c.Note(line)
+					fmt.Println("  " + line)
+				}
 			}
 		}
 	}
